@@ -10,7 +10,8 @@ use serde_json::json;
 
 fn decode(b: &[u8]) -> Result<Message, String> {
     match mon::catch(|| decode_clutter_filter_map(&mut &b[..])) {
-        Ok(Ok(m)) => Ok(m),
+        // (every other result is handed on as a clone: a copy holds what the original holds)
+        Ok(Ok(m)) => Ok(if b.len() % 2 == 0 { m.clone() } else { m }),
         Ok(Err(e)) => Err(format!("error {e:?}")),
         Err(p) => Err(p.signature()),
     }
@@ -92,6 +93,21 @@ fn check_map(obs: &mut Obs, spec: &ClutterMap, rng: &mut Rng, shape: u64, cuts: 
             return;
         }
     };
+    // a reader that fails once, transiently, inside the map: an error is fine, the right map is fine
+    if shape % 4 == 1 {
+        match super::decode_through_flaky_reader(&bytes, shape, |rd| decode_clutter_filter_map(rd)) {
+            Err(p) => {
+                obs.violation("decode_clutter_filter_map panics with a reader that fails transiently", p, replay);
+                return;
+            }
+            Ok(Some(m2)) if m2 != m || format!("{:?}", m2) != format!("{:?}", m) => {
+                obs.violation("a transient read error inside the map yields a map decoded from other bytes", "", replay);
+                return;
+            }
+            Ok(Some(_)) => obs.count("transient_read_errors_survived_with_the_right_map", 1),
+            Ok(None) => obs.count("transient_read_errors_reported_as_errors", 1),
+        }
+    }
     // the same bytes through a reader that returns short reads must decode identically
     {
         let mut rd = mon::DribbleReader::new(std::io::Cursor::new(&bytes[..]), shape);
